@@ -47,6 +47,7 @@ class RunModel:
         self.builder = InstantBuilder(model, self.ir)
         self.raises = [o for o in outs if o.kind == 'raise']
         self.paths = []
+        self.early_exits = []     # completing paths of run() that never reach the stepping loop
         done = [o for o in outs if o.kind in ('fall', 'return')]
         if not done:
             raise AnalysisError('Solver.run has no completing path')
@@ -57,7 +58,8 @@ class RunModel:
                 if e[0] == 'loop' and any(_has_time_append(p.effects) for p in e[1].paths):
                     main_i = i
             if main_i is None:
-                raise AnalysisError('the stepping loop of Solver.run (a loop that appends to Powertrain.time) was not found')
+                self.early_exits.append((o, self.builder.events(effs)))
+                continue
             L = effs[main_i][1]
             pre = self.builder.events(effs[:main_i])
             post = self.builder.events(effs[main_i + 1:])
@@ -68,6 +70,8 @@ class RunModel:
                 if g.kind == 'truth' and isinstance(g.key[0], str) and g.key[0].endswith('.time'):
                     fresh = not g.pol
             self.paths.append(RunPath(fresh, tuple(o.state.guards), pre, loop_ev, L, bodies, post, o))
+        if not self.paths:
+            raise AnalysisError('the stepping loop of Solver.run (a loop that appends to Powertrain.time) was not found')
 
     # ---- instants
     def fresh_instant(self, rp: RunPath):
